@@ -22,5 +22,8 @@ sv=/var/tmp/seedverif
 mkdir -p $sv
 flock /verif/lean/.lake.lock rsync -a --delete --exclude .git --exclude replays --exclude seeded /verif/ $sv/
 cd $sv
-echo "== ./check $prop (quick) on changed tree"; WZ_REPO=$wt ./check $prop --tier quick 2>&1 | grep -E "VIOLATION|BROKEN|violation in|disagreement|no longer|status=" | head -12
-echo "check_rc=${PIPESTATUS[0]}"
+echo "== ./check $prop (quick) on changed tree"; WZ_REPO=$wt ./check $prop --tier quick > $sv/last_check.log 2>&1
+rc=$?
+grep -E "^VIOLATION" $sv/last_check.log | head -3
+grep -E "BROKEN|violation in|disagreement|no longer|status=" $sv/last_check.log | head -12
+echo "check_rc=$rc"
